@@ -407,7 +407,8 @@ def gen_case(rng, maxlen):
     return dict(ops=ops)
 
 
-ORACLE_ONLY_OPS = ["correctDirection", "contourInside", "insertGlyph", "deserializeGlyph", "layerBounds"]
+ORACLE_ONLY_OPS = ["correctDirection", "contourInside", "insertGlyph", "deserializeGlyph", "layerBounds",
+                   "newGlyphOver", "insertGlyphOver", "renameOver", "newGlyphOver"]
 
 
 def gen_oracle_case(rng, maxlen):
@@ -1688,6 +1689,37 @@ class Impl(object):
                 for k in g.components:
                     self.looseK.append(self.kidof[id(k)])
                 g.setDataFromSerialization(data)
+            elif what in ("newGlyphOver", "insertGlyphOver", "renameOver"):
+                # another glyph object takes the name of an existing glyph (the one that components may reference)
+                tgt = self.res_glyph(other)
+                if tgt is None or tgt is g:
+                    return None
+                rest = self.graph()
+                if what == "newGlyphOver":
+                    rest[other] = set()
+                elif what == "insertGlyphOver":
+                    rest[other] = set(rest.get(gname, ()))
+                else:
+                    rest[other] = rest.pop(gname)
+                if not self.acyclic(rest):
+                    return None
+                # what the replaced glyph held is let go
+                for c in tgt:
+                    self.looseC.append(self.cidof[id(c)])
+                for k in tgt.components:
+                    self.looseK.append(self.kidof[id(k)])
+                if what == "newGlyphOver":
+                    new = self.layer.newGlyph(other)
+                elif what == "insertGlyphOver":
+                    new = self.layer.insertGlyph(g, name=other)
+                else:
+                    g.name = other
+                    new = g
+                self.keep.append(new)
+                if id(new) not in self.gidof:
+                    gid = self.fresh_id()
+                    self.gobj[gid] = new
+                    self.gidof[id(new)] = gid
             elif what == "layerBounds":
                 self.layer.bounds
                 self.layer.controlPointBounds
